@@ -53,10 +53,14 @@ type userDel struct {
 	state  []byte
 	merged [][]byte
 	meta   []byte
+	block  chan struct{} // when set, NotifyMsg waits on it (handler stall)
 }
 
 func (d *userDel) NodeMeta(limit int) []byte { return d.meta }
 func (d *userDel) NotifyMsg(b []byte) {
+	if d.block != nil {
+		<-d.block
+	}
 	d.mu.Lock()
 	d.got = append(d.got, append([]byte(nil), b...))
 	d.mu.Unlock()
@@ -108,12 +112,14 @@ type cnode struct {
 	del *userDel
 	ev  *recorder
 	cfg ccfg
+	kr  *ml.Keyring
 }
 
 func newCnode(c ccfg) (*cnode, error) {
 	tr := newCapTransport()
 	del := &userDel{q: &ml.TransmitLimitedQueue{RetransmitMult: 1, NumNodes: func() int { return 1 }}}
 	ev := &recorder{pool: newAddrPool()}
+	var keyring *ml.Keyring
 	conf := ml.DefaultLANConfig()
 	conf.Name = c.name
 	if conf.Name == "" {
@@ -157,6 +163,7 @@ func newCnode(c ccfg) (*cnode, error) {
 			return nil, err
 		}
 		conf.Keyring = kr
+		keyring = kr
 	}
 	m, err := ml.Create(conf)
 	if err != nil {
@@ -164,7 +171,7 @@ func newCnode(c ccfg) (*cnode, error) {
 	}
 	ml.VerifResetBroadcasts(m)
 	ev.take()
-	return &cnode{m: m, tr: tr, del: del, ev: ev, cfg: c}, nil
+	return &cnode{m: m, tr: tr, del: del, ev: ev, cfg: c, kr: keyring}, nil
 }
 
 var fromAddr = &net.UDPAddr{IP: net.IPv4(10, 0, 0, 1), Port: 7946}
